@@ -121,11 +121,12 @@ def check_instance(payload, K, st: Stats):
             S.append((g, z3.Sum([z3.ToReal(v) * bpv[t] for t, v in occ.items()])))
         under = z3.Or([z3.And(g, U < x) for g, x in S])
         never_attained = z3.And([z3.Or(z3.Not(g), U != x) for g, x in S])
-        obligations.append((f"usage[{mem}]*size >= peak of live bits (trip counts 1..{K})", [under], None))
+        # one query per time step (the disjunction over time steps as a single query is 100x slower)
+        obligations.append((f"usage[{mem}]*size >= peak of live bits (trip counts 1..{K})", [[z3.And(g, U < x)] for g, x in S], None))
         whole = z3.Sum([z3.ToReal(v) * bpv[t] for t, v in whole_tiles[mem].items()])
         obligations.append((f"usage[{mem}]*size <= sum of whole tiles (trip counts 1..{K})", [U > whole], None))
         if unobstructed(sk, arch, wl, mem):
-            obligations.append((f"usage[{mem}]*size == peak of live bits (trip counts 3..{K})", [z3.Or(under, never_attained)], 3))
+            obligations.append((f"usage[{mem}]*size is attained at some time step (trip counts 3..{K})", [never_attained], 3))
         # reservation columns: the largest equals the usage, none exceeds it
         rcols = sorted((c for c in cols if c.startswith(f"reservation{SEP}{mem}{SEP}")), key=lambda c: int(c.split(SEP)[2]))
         if rcols:
@@ -144,13 +145,46 @@ def check_instance(payload, K, st: Stats):
         s.push()
         if lo:
             s.add([v >= lo for v in nvar.values()])
-        s.add(neg)
-        r = z3_check(s, st, 240000)
+        if neg and isinstance(neg[0], list):
+            r = "unsat"
+            for part in neg:
+                s.push()
+                s.add(part)
+                rp = z3_check(s, st, 120000)
+                if rp == "sat":
+                    r = "sat"
+                    m_keep = s.model()
+                    s.pop()
+                    break
+                if rp != "unsat":
+                    r = "unknown"
+                s.pop()
+            if r == "sat":
+                s.add(part)
+                s.check()
+        else:
+            s.add(neg)
+            r = z3_check(s, st, 240000)
         count_obligation(st, r, label + d)
         if r == "unknown":
             st.extra.setdefault("unknown_obligations", []).append((label + " " + d)[:300])
         if r == "sat":
-            m = s.model()
+            # prefer a witness with small integer bits-per-value (reported and peak bits are then
+            # integers, so the concrete replay is not at the mercy of float tolerances)
+            ints = []
+            for n_, v_ in tr.env.items():
+                if n_.startswith("bpv_"):
+                    iv = z3.Int("int_" + n_)
+                    ints += [v_ == z3.ToReal(iv), iv >= 1, iv <= 16]
+            s.push()
+            s.add(ints)
+            if z3_check(s, st, 120000) == "sat":
+                m = s.model()
+                s.pop()
+            else:
+                s.pop()
+                s.check()
+                m = s.model()
             trips = {i: int(model_value(m, v)) for i, v in nvar.items()}
             vals = {n: model_value(m, v) for n, v in tr.env.items() if not n.startswith("n")}
             viol.append((d, trips, vals))
@@ -227,6 +261,11 @@ def replay(payload, d, trips, vals, st):
         for t in tensors:
             v = vals.get(f"bpv_{c}_{t}")
             bpvs[(c, t)] = float(v) if v is not None else 8.0
+    # reported and peak bits are both linear in the bits-per-value vector: rescale the solver's
+    # (unbounded) values into a range the concrete run accepts
+    mx = max(bpvs.values())
+    if mx > 64 or mx < 1e-3:
+        bpvs = {k: v * 16.0 / mx for k, v in bpvs.items()}
     ni = (int(vals.get("N_workload") or 1), int(vals.get("N_einsum") or 1))
     size = 10 ** 9
     sizes = {c: size for k, c in M.ARCHS[arch] if k == "mem"}
